@@ -10,7 +10,6 @@ import (
 	"sort"
 	"strconv"
 	"strings"
-	"time"
 
 	"verifharness/core"
 )
@@ -585,7 +584,7 @@ func init() {
 			return map[string]any{"proj": r.OK}
 		},
 		Judge: func(args, real, drv json.RawMessage) *core.Verdict {
-			if v := core.CrashVerdict(real); v != nil {
+			if v := c10Crash(real); v != nil {
 				return v
 			}
 			var a loadArgs
@@ -628,7 +627,7 @@ func init() {
 			}
 			return nil
 		},
-		Timeout: 20 * time.Second,
+		Timeout: c10Timeout,
 	})
 	core.Register("c10.loadGraph", &core.CheckDef{
 		Real: func(raw json.RawMessage) any {
@@ -665,7 +664,7 @@ func init() {
 		DriverOp:   "c10.consistency",
 		DriverArgs: func(args, real json.RawMessage) any { var a graphLoadArgs; json.Unmarshal(args, &a); return map[string]any{"proj": a.Proj} },
 		Judge:      judgeOutcomes("the load", func(d modelAnswer) *bool { return d.Consistent }),
-		Timeout:    60 * time.Second,
+		Timeout:    c10Timeout,
 	})
 }
 
